@@ -106,10 +106,10 @@ type Reply struct {
 	Perturb string `json:"perturb,omitempty"`
 	K       int    `json:"k,omitempty"` // parameter of the perturbation (e.g. identifier bump)
 	// Garbage: byte-level damage applied last: trunc:<n>|flip:<off>:<mask>|cut:<n>|append:<n>
-	Garbage string `json:"garbage,omitempty"`
-	OuterOpts bool `json:"outerOpts,omitempty"` // direct IPv4 replies: carry IP options on the outer header (IHL > 5)
-	Dup     int    `json:"dup,omitempty"`     // extra identical copies
-	DupGapUs int64 `json:"dupGapUs,omitempty"` // spacing of the copies
+	Garbage   string `json:"garbage,omitempty"`
+	OuterOpts bool   `json:"outerOpts,omitempty"` // direct IPv4 replies: carry IP options on the outer header (IHL > 5)
+	Dup       int    `json:"dup,omitempty"`       // extra identical copies
+	DupGapUs  int64  `json:"dupGapUs,omitempty"`  // spacing of the copies
 }
 
 // Noise is a packet unrelated to any probe, delivered at an absolute instant.
@@ -127,7 +127,7 @@ type Fault struct {
 	Actor string `json:"actor"` // endpoint actor; "new:<actor>" is not used: op "new" names the endpoint being created
 	Op    string `json:"op"`    // new|filter|deadline|read|write|closeSource|closeSink
 	K     int    `json:"k"`
-	Class string `json:"class"` // fatal|deadline|zero|stall
+	Class string `json:"class"` // fatal|deadline|zero|stall (the operation takes effect Us later)|stallret (write only: the packet leaves at once, WriteTo returns Us later)
 	Us    int64  `json:"us,omitempty"`
 }
 
@@ -135,17 +135,17 @@ type Fault struct {
 // handshake from a real listening socket on Addr; the simulator puts the matching synthetic
 // SYN-ACK on the simulated wire.
 type Listener struct {
-	Addr       string `json:"addr"` // 127.0.0.x
-	Port       int    `json:"port,omitempty"` // fixed listening port (every worker has its own network namespace); 0: kernel-chosen
-	Closed     bool   `json:"closed,omitempty"`
-	Permitted  bool   `json:"permitted"`
-	Timestamps bool   `json:"timestamps,omitempty"`
-	NoSynAck   bool   `json:"noSynAck,omitempty"` // handshake never captured
-	ISN        uint32 `json:"isn"`                // ack number of the first SYN-ACK (the driver's initial sequence)
-	ISNStep    uint32 `json:"isnStep,omitempty"`  // added per further connection (default 1<<20)
-	ServerSeq  uint32 `json:"serverSeq,omitempty"`
-	SynAckDelayUs int64 `json:"synAckDelayUs,omitempty"`
-	TruncTS    bool   `json:"truncTS,omitempty"`
+	Addr          string `json:"addr"`           // 127.0.0.x
+	Port          int    `json:"port,omitempty"` // fixed listening port (every worker has its own network namespace); 0: kernel-chosen
+	Closed        bool   `json:"closed,omitempty"`
+	Permitted     bool   `json:"permitted"`
+	Timestamps    bool   `json:"timestamps,omitempty"`
+	NoSynAck      bool   `json:"noSynAck,omitempty"` // handshake never captured
+	ISN           uint32 `json:"isn"`                // ack number of the first SYN-ACK (the driver's initial sequence)
+	ISNStep       uint32 `json:"isnStep,omitempty"`  // added per further connection (default 1<<20)
+	ServerSeq     uint32 `json:"serverSeq,omitempty"`
+	SynAckDelayUs int64  `json:"synAckDelayUs,omitempty"`
+	TruncTS       bool   `json:"truncTS,omitempty"`
 }
 
 // HTTPPlan scripts one public-IP provider (by position in the repo's provider list).
@@ -174,7 +174,7 @@ type Knobs struct {
 	// sentinel); FreeFailAll fails every construction
 	FreeFailNew []int `json:"freeFailNew,omitempty"`
 	FreeFailAll bool  `json:"freeFailAll,omitempty"`
-	FreshCache      bool   `json:"freshCache,omitempty"` // false keeps the cache of the previous call in the same scenario only
+	FreshCache  bool  `json:"freshCache,omitempty"` // false keeps the cache of the previous call in the same scenario only
 }
 
 // EngineScript drives common.TracerouteParallel / TracerouteSerial through a scripted driver.
@@ -187,7 +187,7 @@ type EngineScript struct {
 	// RecvErrAfter > 0 makes ReceiveProbe fail fatally after this many successful hand-outs.
 	RecvErrAfter int `json:"recvErrAfter,omitempty"`
 	// RetryableEvery > 0 makes every n-th ReceiveProbe return a retryable bad-packet error.
-	RetryableEvery int `json:"retryableEvery,omitempty"`
+	RetryableEvery int  `json:"retryableEvery,omitempty"`
 	NoParallel     bool `json:"noParallel,omitempty"`
 }
 
